@@ -220,6 +220,70 @@ static void w_trial(uint64_t i)
 }
 
 /* ---- pollution: different per worker thread and per call, hence per schedule */
+/* ---- C01 inside concurrent trials: every trial drives an event queue of its own through many short rounds of schedule / pattern count /
+ * pattern cancel / is-scheduled / run-to-empty, mostly with 32 pending events or fewer, each round judged against what the trial itself scheduled */
+static _Atomic int e_bad; static char e_msg[200]; static _Atomic uint64_t e_sweeps, e_events_run;
+static _Thread_local uint64_t e_ran;
+static void e_act0(void *s, void *o) { (void)s; (void)o; e_ran++; }
+static void e_act1(void *s, void *o) { (void)s; (void)o; e_ran++; }
+static void e_fail(uint64_t i, int round, const char *what, uint64_t a, uint64_t b) { if (!atomic_exchange(&e_bad, 1)) snprintf(e_msg, sizeof e_msg, "trial %" PRIu64 " round %d: %s (%" PRIu64 ", expected %" PRIu64 ")", i, round, what, a, b); }
+static void e_trial(uint64_t i)
+{
+    vr_rng g = { tseed[i] | 1 }; char marks[4];
+    cmb_logger_flags_off(CMB_LOGGER_INFO | CMB_LOGGER_WARNING);
+    cmb_event_queue_initialize(0.0);
+    int rounds = 150 + 25 * (int)tlen[i];
+    for (int round = 0; round < rounds && !e_bad; round++) {
+        int n = vr_chance(&g, 1, 8) ? 33 + (int)vr_below(&g, 60) : 2 + (int)vr_below(&g, 31); uint64_t h[96]; int subj[96]; uint64_t expected = 0;
+        int victim = (int)vr_below(&g, 4);
+        for (int k = 0; k < n; k++) { subj[k] = (int)vr_below(&g, 4); if (subj[k] == victim) expected++;
+            h[k] = cmb_event_schedule((k & 1) ? e_act1 : e_act0, &marks[subj[k]], (void *)(uintptr_t)(k + 1), cmb_time() + (double)vr_below(&g, 5), (int64_t)vr_below(&g, 3)); }
+        uint64_t cnt = cmb_event_pattern_count(CMB_ANY_ACTION, &marks[victim], CMB_ANY_OBJECT);
+        if (cnt != expected) e_fail(i, round, "pattern count of one subject's events", cnt, expected);
+        uint64_t got = cmb_event_pattern_cancel(CMB_ANY_ACTION, &marks[victim], CMB_ANY_OBJECT);
+        if (got != expected) e_fail(i, round, "pattern cancel of one subject's events returned", got, expected);
+        for (int k = 0; k < n; k++) if (cmb_event_is_scheduled(h[k]) != (subj[k] != victim)) { e_fail(i, round, subj[k] == victim ? "a cancelled event is still scheduled, index" : "an event of another subject is gone, index", (uint64_t)k, (uint64_t)n); break; }
+        e_ran = 0; while (cmb_event_execute_next()) { }
+        if (e_ran != (uint64_t)n - expected) e_fail(i, round, "events run after the sweep", e_ran, (uint64_t)n - expected);
+        atomic_fetch_add(&e_sweeps, 1); atomic_fetch_add(&e_events_run, e_ran);
+    }
+    cmb_event_queue_terminate();
+}
+
+/* ---- C16 inside concurrent trials: a parameter sweep, each trial drawing from gamma / beta / chi-squared / PERT with its own parameters for
+ * its whole length (so that whatever a sampler caches per parameter is never refreshed) while the other workers use other parameters.
+ * Sample mean and variance are compared with the distribution's at 7.5 standard errors (false-alarm rate below 1e-13 per comparison). */
+static _Atomic int g_bad; static char g_msg[300]; static _Atomic uint64_t g_draws, g_moment_tests;
+static void g_judge(uint64_t i, const char *what, double p1, double p2, double m, double v, double mu, double var, double k4, uint64_t n)
+{
+    /* k4 = fourth central moment / var^2 (kurtosis), for the standard error of the sample variance */
+    double se_m = sqrt(var / (double)n), se_v = var * sqrt((k4 - 1.0) / (double)n);
+    atomic_fetch_add(&g_moment_tests, 2);
+    if ((!(fabs(m - mu) <= 7.5 * se_m) || !(fabs(v - var) <= 7.5 * se_v + 1e-12 * var)) && !atomic_exchange(&g_bad, 1))
+        snprintf(g_msg, sizeof g_msg, "trial %" PRIu64 ": %" PRIu64 " draws of %s(%g, %g) have mean %.6g (distribution %.6g, s.e. %.3g) and variance %.6g (distribution %.6g, s.e. %.3g)", i, n, what, p1, p2, m, mu, se_m, v, var, se_v);
+}
+static void g_trial(uint64_t i)
+{
+    static const double shapes[] = { 0.3, 0.5, 1.0, 1.5, 2.5, 4.0, 7.0, 12.0, 30.0, 100.0 };
+    cmb_random_initialize(tseed[i] | 1);
+    const uint64_t n = 20000 + 4000 * (uint64_t)tlen[i]; int fam = (int)(i % 4);
+    double a = shapes[(i / 4) % 10], b = shapes[(i / 40 + 3 + i) % 10], sm = 0, sq = 0, c0 = 0;
+    for (uint64_t k = 0; k < n; k++) {
+        double x = fam == 0 ? cmb_random_gamma(a, 2.0) : fam == 1 ? cmb_random_std_beta(a, b) : fam == 2 ? cmb_random_chisquared(a * 2.0) : cmb_random_PERT(1.0, 1.0 + 4.0 * a / (a + 100.0) + 0.5, 6.0);
+        if (k == 0) c0 = x;
+        sm += x - c0; sq += (x - c0) * (x - c0);
+    }
+    double m = c0 + sm / (double)n, v = (sq - sm * sm / (double)n) / (double)(n - 1);
+    atomic_fetch_add(&g_draws, n);
+    if (fam == 0) g_judge(i, "gamma", a, 2.0, m, v, a * 2.0, a * 4.0, 3.0 + 6.0 / a, n);
+    else if (fam == 1) { double s2 = a + b, var = a * b / (s2 * s2 * (s2 + 1.0)); double k4 = 3.0 + 6.0 * ((a - b) * (a - b) * (s2 + 1.0) - a * b * (s2 + 2.0)) / (a * b * (s2 + 2.0) * (s2 + 3.0)); g_judge(i, "beta", a, b, m, v, a / s2, var, k4, n); }
+    else if (fam == 2) { double kk = a * 2.0; g_judge(i, "chi-squared", kk, 0.0, m, v, kk, 2.0 * kk, 3.0 + 12.0 / kk, n); }
+    else { double lo = 1.0, mode = 1.0 + 4.0 * a / (a + 100.0) + 0.5, hi = 6.0; double al = 1.0 + 4.0 * (mode - lo) / (hi - lo), be = 1.0 + 4.0 * (hi - mode) / (hi - lo), s2 = al + be;
+        double var01 = al * be / (s2 * s2 * (s2 + 1.0)); double k4 = 3.0 + 6.0 * ((al - be) * (al - be) * (s2 + 1.0) - al * be * (s2 + 2.0)) / (al * be * (s2 + 2.0) * (s2 + 3.0));
+        g_judge(i, "PERT(1, mode, 6) with mode", mode, 0.0, m, v, lo + (hi - lo) * al / s2, var01 * (hi - lo) * (hi - lo), k4, n); }
+    cmb_random_terminate();
+}
+
 static _Thread_local uint64_t tl_calls; static _Atomic uint64_t n_unpolluted_caches;
 static void pollute(void)
 {
@@ -264,6 +328,8 @@ static void trial_func(void *vp)
     { uint64_t tag = i + 1; memcpy(p, &tag, stride < 8 ? stride : 8); }     /* the element itself is tagged by its own trial */
     if (!in_seq) who_ran[i] = pthread_self();
     if (q_mode == 2) { w_trial(i); return; }
+    if (q_mode == 3) { e_trial(i); return; }
+    if (q_mode == 4) { g_trial(i); return; }
     if (err_mode && err_trial[i]) {
         /* a trial that gives up: cmb_logger_error ends "the current replication thread only"; the other trials are the other workers' */
         if (!in_seq) { static FILE *nul; if (!nul) nul = fopen("/dev/null", "w"); if (nul) cmb_logger_error(nul, "trial %d gives up", (int)i); }
@@ -325,6 +391,21 @@ void vr_case(uint64_t seed, uint64_t idx, int profile)
         cimba_run_experiment(arr, ntrials, stride, trial_func);
         if (w_bad) vr_violation("C17/concurrent-trials", "%s", w_msg);
         VR_ADD("weighted_summary_trials", ntrials); VR_ADD("weighted_statistics_read_in_concurrent_trials", w_reads); VR_CNT("weighted_summary_experiments");
+        vr_mark_nontrivial(); free(arr); return;
+    }
+    if (profile == 4) {
+        q_mode = 3; if (ntrials > 200) ntrials = 200;
+        cimba_run_experiment(arr, ntrials, stride, trial_func);
+        if (e_bad) vr_violation("C01/concurrent-trials", "%s", e_msg);
+        VR_ADD("event_queue_trials", ntrials); VR_ADD("pattern_sweeps_in_concurrent_trials", e_sweeps); VR_ADD("events_run_in_concurrent_trials", e_events_run); VR_CNT("event_queue_experiments");
+        vr_mark_nontrivial(); free(arr); return;
+    }
+    if (profile == 5) {
+        q_mode = 4; if (ntrials > 200) ntrials = 200;
+        (void)cmb_random_std_gamma(2.5);       /* the calling thread has its own history */
+        cimba_run_experiment(arr, ntrials, stride, trial_func);
+        if (g_bad) vr_violation("C16/concurrent-trials", "%s", g_msg);
+        VR_ADD("sampler_trials", ntrials); VR_ADD("draws_in_concurrent_trials", g_draws); VR_ADD("moments_compared_in_concurrent_trials", g_moment_tests); VR_CNT("sampler_experiments");
         vr_mark_nontrivial(); free(arr); return;
     }
     bool seq_first = vr_chance(&r, 1, 2);
